@@ -4,6 +4,7 @@ The arithmetic of `Tera.SoftFloat` computes the exact result and rounds once: le
 exact values `F64.num / F64.den`; T3: `fmod` is exact).
 -/
 import TeraModel.Lemmas.SoftFloatRound
+import TeraModel.Lemmas.SoftFloatBits
 import Mathlib.Tactic.LinearCombination
 namespace Tera.SoftFloat
 open F64
@@ -210,10 +211,12 @@ theorem div_fin (sa sb : Bool) (ma mb : Nat) (ea eb : Int) (hb : mb ≠ 0) :
 
 /-! ### Representable values and their integer value in units of `2^-1074` -/
 
-/-- A finite binary64 value: significand below `2^53`, exponent in range (not necessarily
-normalised).  Everything `F64.ofBits` decodes to a `fin`, and `F64.ofIntRNE` of an i128, is one. -/
+/-- A finite binary64 value given by a significand of at most 53 bits and an exponent in range
+(not necessarily normalised); the significand `2^53` itself is allowed below the top exponent
+(`F64.roundNat` produces it when rounding carries).  Everything `F64.ofBits` decodes to a `fin`
+(`ofBits_isF64`), and `F64.ofIntRNE` of any 128-bit integer (`ofIntRNE_isF64`), is one. -/
 def IsF64 : F64 → Prop
-  | .fin _ m e => m < 2 ^ 53 ∧ -1074 ≤ e ∧ e ≤ 971
+  | .fin _ m e => (m < 2 ^ 53 ∨ (m = 2 ^ 53 ∧ e ≤ 970)) ∧ -1074 ≤ e ∧ e ≤ 971
   | _ => False
 
 /-- The value of a finite float in units of `2^-1074`: an integer for every representable float. -/
@@ -234,35 +237,64 @@ theorem units_spec (s : Bool) (m : Nat) (e : Int) (he : -1074 ≤ e) :
   linear_combination (sgn s * (m : Int)) * h
 
 /-- A representable magnitude `n * 2^e` passes through `roundScaled` unchanged (no rounding). -/
-theorem roundScaled_exact (neg : Bool) (n : Nat) (e : Int) (hn : n < 2 ^ 53) (he : -1074 ≤ e)
-    (he2 : e ≤ 971) :
+theorem roundScaled_exact (neg : Bool) (n : Nat) (e : Int)
+    (hn : n < 2 ^ 53 ∨ (n = 2 ^ 53 ∧ e ≤ 970)) (he : -1074 ≤ e) (he2 : e ≤ 971) :
     ∃ m k : Nat, roundScaled neg n e = .fin neg m ((k : Int) - 1074) ∧
       m * 2 ^ k = n * 2 ^ (e + 1074).toNat ∧ m < 2 ^ 53 ∧ (2 ^ 52 ≤ m ∨ k = 0) ∧ k ≤ 2045 := by
   unfold roundScaled
   obtain ⟨m, k, hR, heq⟩ := roundDyadic_spec neg (n * 2 ^ e.toNat) (2 ^ (-e).toNat) (Nat.two_pow_pos _)
-  have hex := hR.exact (Nat.two_pow_pos _) n (e + 1074).toNat hn (by
+  have hscale : n * 2 ^ e.toNat * 2 ^ 1074 = n * 2 ^ (e + 1074).toNat * 2 ^ (-e).toNat := by
     have h : 2 ^ e.toNat * 2 ^ 1074 = 2 ^ (e + 1074).toNat * 2 ^ (-e).toNat := by
       simp only [← pow_add]; congr 1; omega
     calc n * 2 ^ e.toNat * 2 ^ 1074 = n * (2 ^ e.toNat * 2 ^ 1074) := by ring
       _ = n * (2 ^ (e + 1074).toNat * 2 ^ (-e).toNat) := by rw [h]
-      _ = n * 2 ^ (e + 1074).toNat * 2 ^ (-e).toNat := by ring)
+      _ = n * 2 ^ (e + 1074).toNat * 2 ^ (-e).toNat := by ring
+  -- a 53-bit representation (m', k') of the magnitude, k' ≤ 2045
+  obtain ⟨m', k', hm', hk', hrep⟩ : ∃ m' k', m' < 2 ^ 53 ∧ k' ≤ 2045 ∧
+      n * 2 ^ (e + 1074).toNat = m' * 2 ^ k' := by
+    rcases hn with hn | ⟨hn, he3⟩
+    · exact ⟨n, (e + 1074).toNat, hn, by omega, rfl⟩
+    · refine ⟨2 ^ 52, (e + 1074).toNat + 1, by omega, by omega, ?_⟩
+      rw [hn, Nat.pow_succ]; ring
+  have hex := hR.exact (Nat.two_pow_pos _) m' k' hm' (by rw [hscale, hrep])
+  rw [← hrep] at hex
   have hk : k ≤ 2045 := by
     by_contra hc
-    have hk' : 2046 ≤ k := by omega
+    have hk2 : 2046 ≤ k := by omega
     have hm : 2 ^ 52 ≤ m := by
       rcases hR.normal_or_sub with h | h
       · exact h
       · omega
     have h1 : 2 ^ 52 * 2 ^ 2046 ≤ m * 2 ^ k :=
-      Nat.mul_le_mul hm (Nat.pow_le_pow_right (by omega) hk')
-    have h2 : n * 2 ^ (e + 1074).toNat < 2 ^ 53 * 2 ^ (e + 1074).toNat :=
-      Nat.mul_lt_mul_of_pos_right hn (Nat.two_pow_pos _)
-    have h3 : 2 ^ 53 * 2 ^ (e + 1074).toNat ≤ 2 ^ 53 * 2 ^ 2045 :=
-      Nat.mul_le_mul_left _ (Nat.pow_le_pow_right (by omega) (by omega))
+      Nat.mul_le_mul hm (Nat.pow_le_pow_right (by omega) hk2)
+    have h2 : m' * 2 ^ k' < 2 ^ 53 * 2 ^ k' :=
+      Nat.mul_lt_mul_of_pos_right hm' (Nat.two_pow_pos _)
+    have h3 : 2 ^ 53 * 2 ^ k' ≤ 2 ^ 53 * 2 ^ 2045 :=
+      Nat.mul_le_mul_left _ (Nat.pow_le_pow_right (by omega) hk')
     have h4 : 2 ^ 53 * 2 ^ 2045 = 2 ^ 52 * 2 ^ 2046 := by rw [← Nat.pow_add, ← Nat.pow_add]
     omega
   refine ⟨m, k, ?_, hex, hR.lt, hR.normal_or_sub, hk⟩
   rw [heq]; simp only [hk, if_true]
+
+/-- `i128 as f64` / `u128 as f64` in the model (`F64.ofIntRNE`) is a representable value. -/
+theorem ofIntRNE_isF64 (n : Int) (hn : n.natAbs < 2 ^ 128) : IsF64 (F64.ofIntRNE n) := by
+  unfold F64.ofIntRNE F64.roundNat
+  simp only []
+  generalize n.natAbs = N at *
+  have hbl : bitLen N ≤ 128 := bitLen_le_of_lt N 128 hn
+  by_cases h : bitLen N ≤ 53
+  · simp only [h, if_true, IsF64]
+    have h1 := lt_two_pow_bitLen N
+    have h2 : 2 ^ bitLen N ≤ 2 ^ 53 := Nat.pow_le_pow_right (by omega) h
+    omega
+  · simp only [h, if_false, IsF64]
+    have h1 := lt_two_pow_bitLen N
+    have hq : N / 2 ^ (bitLen N - 53) < 2 ^ 53 := by
+      apply Nat.div_lt_of_lt_mul
+      rw [← Nat.pow_add]
+      have : bitLen N - 53 + 53 = bitLen N := by omega
+      rw [this]; exact h1
+    split <;> omega
 
 /-! ### T3: `fmod` is exact -/
 
@@ -275,15 +307,24 @@ theorem fmod_fin_units (sa sb : Bool) (ma mb : Nat) (ea eb : Int)
   obtain ⟨hb1, hb2, hb3⟩ := hb
   unfold fmod
   simp only [hb0, if_false]
-  -- the remainder of the aligned significands is below 2^53
-  have hR : ma * 2 ^ (ea - min ea eb).toNat % (mb * 2 ^ (eb - min ea eb).toNat) < 2 ^ 53 := by
+  -- the remainder of the aligned significands has at most 53 bits
+  have hR : ma * 2 ^ (ea - min ea eb).toNat % (mb * 2 ^ (eb - min ea eb).toNat) < 2 ^ 53 ∨
+      (ma * 2 ^ (ea - min ea eb).toNat % (mb * 2 ^ (eb - min ea eb).toNat) = 2 ^ 53 ∧
+        min ea eb ≤ 970) := by
     by_cases hle : ea ≤ eb
     · have : (ea - min ea eb).toNat = 0 := by omega
       rw [this, Nat.pow_zero, Nat.mul_one]
-      exact Nat.lt_of_le_of_lt (Nat.mod_le _ _) ha1
+      have hmod := Nat.mod_le ma (mb * 2 ^ (eb - min ea eb).toNat)
+      rcases ha1 with h | ⟨h, h'⟩
+      · left; omega
+      · by_cases hc : ma % (mb * 2 ^ (eb - min ea eb).toNat) < 2 ^ 53
+        · exact Or.inl hc
+        · right; constructor <;> omega
     · have : (eb - min ea eb).toNat = 0 := by omega
       rw [this, Nat.pow_zero, Nat.mul_one]
-      exact Nat.lt_trans (Nat.mod_lt _ (Nat.pos_of_ne_zero hb0)) hb1
+      have hmod := Nat.mod_lt (ma * 2 ^ (ea - min ea eb).toNat) (Nat.pos_of_ne_zero hb0)
+      left
+      rcases hb1 with h | ⟨h, _⟩ <;> omega
   obtain ⟨m, k, h1, h2, h3, h4, h5⟩ := roundScaled_exact sa _ (min ea eb) hR (by omega) (by omega)
   refine ⟨m, k, h1, h3, h5, h4, ?_⟩
   rw [units_fin, units_fin, units_fin]
